@@ -81,14 +81,15 @@ def _plan(parents, keys, parent_set) -> bool:
         idx = frozenset(next(i for i, u in enumerate(usages) if u is d) for d in dus)
         if idx in got_groups:
             return False  # two groups keyed by the same set of usages
-        got_groups[idx] = list(gfs)
+        got_groups[idx] = set(gfs)
         for key in gfs:
-            if gfs[key] is not original[key]:
-                return False  # the field details list is passed on, not rebuilt
+            if list(gfs[key]) != snapshot[key] or any(a is not b for a, b in zip(gfs[key], snapshot[key])):
+                return False  # the same field occurrences, in the same order
     for key in plan.grouped_field_set:
-        if plan.grouped_field_set[key] is not original[key]:
+        if list(plan.grouped_field_set[key]) != snapshot[key]:
             return False
-    return got_groups == want_groups
+    # (key order inside a deferred group is not observable in the reassembled response: compared as sets)
+    return got_groups == {k: set(v) for k, v in want_groups.items()}
 
 
 OCC = [(None,), (0,), (1,), (2,), (None, 0), (0, 1), (1, 0), (0, 2), (1, 2), (2, 2), (2, None), (0, 1, 2)]
@@ -98,7 +99,7 @@ PSETS = [[], [0], [1], [2], [0, 1], [1, 2]]
 def plan_matches_spec(o0: int, o1: int, o2: int, *, forest: int, pset: int, nkeys: int) -> bool:
     """3 defer usages in every forest shape x every assignment of 12 occurrence patterns to 2..3
     response keys x 6 parent sets: the plan equals the specification's partition (main group,
-    one new group per distinct filtered set, document order kept, lists passed on by identity,
+    one new group per distinct filtered set, document order of the main group kept, the same field occurrences,
     inputs untouched)."""
     parents = FORESTS3[forest]
     occ = [OCC[forked(o0, 0, len(OCC))], OCC[forked(o1, 0, len(OCC))]]
